@@ -95,6 +95,28 @@ def main():
                     loads.append(("fileobj", lambda: joblib.load(open(path, "rb"))))
                     loads.append(("rawfile", lambda: joblib.load(open(path, "rb", buffering=0))))
                     loads.append(("bytesio", lambda: joblib.load(io.BytesIO(data))))
+                    # less usual targets: a pathlib.Path, file objects that have no path name (anonymous temporary file, a file
+                    # opened from a descriptor), a spooled file, a dump into an anonymous file read back from the same object
+                    import pathlib, tempfile
+                    loads.append(("pathlib", lambda: joblib.load(pathlib.Path(path))))
+
+                    def via_tmpfile():
+                        with tempfile.TemporaryFile() as tf:
+                            tf.write(data); tf.seek(0); return joblib.load(tf)
+
+                    def via_fd():
+                        fd = os.open(path, os.O_RDONLY)
+                        with os.fdopen(fd, "rb") as fh: return joblib.load(fh)
+
+                    def via_spooled():
+                        with tempfile.SpooledTemporaryFile(max_size=1 << 30) as sf:
+                            sf.write(data); sf.seek(0); return joblib.load(sf)
+
+                    def dump_into_tmpfile():
+                        with tempfile.TemporaryFile() as tf:
+                            joblib.dump(obj, tf, compress=arg, protocol=case.get("protocol")); tf.seek(0); return joblib.load(tf)
+                    loads += [("anonymous temporary file", via_tmpfile), ("file opened from a descriptor", via_fd), ("spooled file", via_spooled),
+                              ("dump and load through one anonymous file", dump_into_tmpfile)]
                     for name, fn in loads:
                         try:
                             r = fn()
